@@ -23,6 +23,7 @@ import MdwModel.Theorems.C16
 import MdwModel.Theorems.Plan
 import MdwModel.Model.Decode
 import MdwModel.Theorems.Image
+import MdwModel.Theorems.Refine
 namespace Mdw
 
 /-- extents are consecutive from `pos` and end at `fin` -/
@@ -256,5 +257,18 @@ example :
       ⟨9, 6, 1, 4, 0x8201, [], [76]⟩, [], none, none, none, none, none, none, none, .failed [], none, [(5, [97])], .failed [], some [91, 93]⟩
     (dumpAcc d).dir.length = 18 ∧ (dumpBytes d).length = 32 + 216 + (dumpAcc d).bytes.length := by
   decide +kernel
+
+
+/-- **C01 (writers refine the image model).** memory-info list, raw files / soft errors and system info: the builder
+    operations the writers perform produce exactly the corresponding stage of the image model -/
+theorem C01_refine_mem_info (b : Buf) (l : List MemInfoRec) (hb : b.len + 16 + 48 * l.length < 2 ^ 32) :
+    opMemInfo b l = some (⟨b.inner ++ memInfoBody l⟩, ⟨ST_MEMORY_INFO_LIST, 16 + 48 * l.length, b.len⟩) := Refine_mem_info b l hb
+
+theorem C01_refine_raw (ty : Nat) (b : Buf) (content : Bytes) (hb : b.len + content.length < 2 ^ 32) :
+    opRaw ty b content = (⟨b.inner ++ content⟩, ⟨ty, content.length, b.len⟩) := Refine_raw ty b content hb
+
+theorem C01_refine_sysinfo (b : Buf) (sys : DSysInfo) (hb : b.len + 56 + 4 + 2 * sys.os.length < 2 ^ 32) :
+    opSysInfo b sys = some (⟨b.inner ++ (serSysInfo sys (b.len + 56) ++ mdStr sys.os)⟩, ⟨ST_SYSTEM_INFO, 56, b.len⟩) :=
+  Refine_sysinfo b sys hb
 
 end Mdw
